@@ -24,6 +24,9 @@ THEOREMS = {
     "C16_nul_link_refuted": "refuted",
     "C16_symlink_loop_refuted": "refuted",
     "C16_unresolvable_aborts": "full",
+    "C16_resolved_path_link_free": "full",
+    "C16_asset_path_link_free": "full",
+    "C16_asset_path_link_free_ex": "example",
 }
 TRUSTED = [
     "Coq 8.16.1 kernel (coqc; vm_compute for the correspondence and the concrete examples only)",
